@@ -213,6 +213,20 @@ def weakAssign : Nat → NG → EGraph → Node → Node → NG × EGraph
         | none => a2   -- the Go code panics ("Subnode argument is not a subnode")
       else a2) (ng, g1)
 
+/-- no subnode edge leaves `s` (then `WeakAssign(_, s)` does not touch the node group) -/
+def NoSubOut (g : EGraph) (s : Node) : Prop := ∀ p, (g.fl s p).sub = false
+
+/-- the loop body of `WeakAssign` for an edge that is not a subnode edge -/
+def waStep (I : Node → Nat) (dest : Node) (g : EGraph) (e : Node × Flags) : EGraph :=
+  let a1 := if e.2.ext then addEdge I g dest e.1 Flags.internal else g
+  if e.2.int then addEdge I a1 dest e.1 Flags.internal else a1
+
+/-- the graph computed by `WeakAssign(dest, src)` on the flat fragment
+(`weakAssign_flat_eq`, Props/C15.lean) -/
+def waFlat (I : Node → Nat) (g : EGraph) (dest src : Node) : EGraph :=
+  ((pointees (addNode I g dest) src).map fun d => (d, (addNode I g dest).fl src d)).foldl
+    (waStep I dest) (addNode I g dest)
+
 /-- `getHistoryNodeOfOp`: walk up through parents / load bases, remember the last node that has the op -/
 def historyNode (ng : NG) (op : Nat) : Nat → Option Node → Option Node → Option Node
   | 0, _, acc => acc
